@@ -165,7 +165,7 @@ TOKENIZERS = [
     {'kind': 'alpha'}, {'kind': 'alnum'},
 ]
 
-UNI = ['é', 'ß', '日本', 'ñ', 'Ω', '𝔘', 'ü', 'ж']
+UNI = ['é', 'ß', '日本', 'ñ', 'Ω', '𝔘', 'ü', 'ж', 'e\u0301', 'İ', 'ǆ', 'ﬁ']      # incl. NFD 'é', case-folding oddities
 
 
 def random_tokenizer(rng, qgram_only=False, allow_bag=True):
@@ -196,7 +196,7 @@ def random_value(rng, tok, vocab, zipf, max_tokens):
     r = rng.random()
     if kind in ('ws', 'delim', 'alpha', 'alnum'):
         if kind == 'ws':
-            seps = [' ', '  ', '\t']
+            seps = [' ', '  ', '\t', '\n', ' \r\n']
         elif kind == 'delim':
             seps = list(tok.get('delims', [' ']))
         else:
@@ -257,6 +257,9 @@ def random_table_pair(rng, tok=None, max_rows=12, missing=0.1, dup_rate=0.2, ext
     out = []
     lcols_extra = ['lx_int', 'lx_str', 'lx_flt'] if extras else []
     rcols_extra = ['rx_str', 'rx_flt', 'rx_bool'] if extras else []
+    if extras and rng.random() < 0.3:
+        lcols_extra = lcols_extra + ['lx col!_str']            # not a valid Python identifier
+        rcols_extra = rcols_extra + ['class', '1rx_int']
     key_kind = key_kind or rng.choice(['int', 'int_shuffled', 'str', 'int_sparse', 'numstr', 'float', 'neg', 'mixed'])
     pool_vals = [random_value(rng, tok, vocab, zipf, max_tokens) for _ in range(6)]
     for side, extra in (('l', lcols_extra), ('r', rcols_extra)):
@@ -294,14 +297,16 @@ def random_table_pair(rng, tok=None, max_rows=12, missing=0.1, dup_rate=0.2, ext
         cols = [side + 'id', side + 'attr'] + list(extra)
         data = {side + 'id': keys, side + 'attr': vals}
         dtypes = {side + 'attr': 'str' if rng.random() < str_dtype else 'object'}
+        if keys and all(isinstance(k, int) and abs(k) < 2 ** 31 for k in keys) and rng.random() < 0.15:
+            dtypes[side + 'id'] = 'int32'
         for c in extra:
             if c.endswith('int'):
                 data[c] = [rng.randint(-5, 5) for _ in range(n)]
-                dtypes[c] = 'int64'
+                dtypes[c] = rng.choice(['int64', 'int64', 'int32'])
             elif c.endswith('flt'):
                 data[c] = [NAN if rng.random() < 0.3 else rng.choice([0.5, 1.0, 2.25, -3.0])
                            for _ in range(n)]
-                dtypes[c] = 'float64'
+                dtypes[c] = rng.choice(['float64', 'float64', 'float32'])
             elif c.endswith('bool'):
                 data[c] = [rng.random() < 0.5 for _ in range(n)]
                 dtypes[c] = 'bool'
